@@ -42,7 +42,7 @@ impl lang::Navigate for Tokenizer
 		if ["comment","heading"].contains(&curs.node().kind()) && parent.kind()=="source_file" {
 			let txt = lang::node_text(&curs.node(), self.parser.line());
 			trace!("visit: {}",txt);
-			self.tokenized_line.append(&mut txt.replace("\t"," ").as_bytes().to_vec());
+			self.tokenized_line.append(&mut txt.replace("\t"," ").trim_end().as_bytes().to_vec());
 			return Ok(Navigation::GotoSibling);
 		}
 
@@ -75,7 +75,7 @@ impl lang::Navigate for Tokenizer
 					txt = txt[super::CALL_TOK.len_utf8()..].to_string();
 				}
 				if curs.node().kind()=="comment" {
-					txt = txt.replace("\t"," ");
+					txt = txt.replace("\t"," ").trim_end().to_string();
 				}
 				trace!("visit: {}",txt);
 				self.tokenized_line.append(&mut txt.as_bytes().to_vec());
